@@ -253,7 +253,28 @@ class Module:
         hits = [n for n in self.tree.body if isinstance(n, ast.FunctionDef) and n.name == name]
         if len(hits) != 1:
             raise Unsupported(f"expected exactly one module-level function `{name}`, found {len(hits)}")
+        self.plain_binding(hits[0], name, self.tree.body)
         return hits[0]
+
+    @staticmethod
+    def plain_binding(fn, name, scope):
+        """the translated body is what the name means only if nothing wraps or rebinds it: a decorator (cache, wrapper,
+        patch) or a later assignment to the same name in the same scope replaces the function by something else"""
+        if fn.decorator_list:
+            raise Unsupported(f"`{name}` is decorated ({ast.unparse(fn.decorator_list[0])}): the name is bound to the "
+                              f"decorator's result, not to the translated body", fn)
+        for st in scope:
+            if st is fn:
+                continue
+            tgts = []
+            if isinstance(st, ast.Assign):
+                tgts = st.targets
+            elif isinstance(st, (ast.AugAssign, ast.AnnAssign)):
+                tgts = [st.target]
+            for t in tgts:
+                for x in ast.walk(t):
+                    if isinstance(x, ast.Name) and x.id == name:
+                        raise Unsupported(f"`{name}` is rebound by an assignment in the same scope", st)
 
     def method(self, cls, name):
         cs = [n for n in self.tree.body if isinstance(n, ast.ClassDef) and n.name == cls]
@@ -262,6 +283,12 @@ class Module:
         ms = [n for n in cs[0].body if isinstance(n, ast.FunctionDef) and n.name == name]
         if len(ms) != 1:
             raise Unsupported(f"expected exactly one method `{cls}.{name}`, found {len(ms)}")
+        self.plain_binding(ms[0], f"{cls}.{name}", [])
+        for st in cs[0].body:
+            if isinstance(st, ast.Assign) and any(isinstance(x, ast.Name) and x.id == name for t in st.targets for x in ast.walk(t)):
+                raise Unsupported(f"`{cls}.{name}` is rebound by an assignment in the class body", st)
+        if cs[0].decorator_list:
+            raise Unsupported(f"class `{cls}` is decorated ({ast.unparse(cs[0].decorator_list[0])})", cs[0])
         return ms[0]
 
 
